@@ -537,6 +537,8 @@ func sliceConvRule(c *Ctx, r *R) {
 func ruleRepSlice(c *Ctx, r *R) {
 	sliceBoundsRule(c, r)
 	sliceConvRule(c, r)
+	newSliceConverts(c, r)
+	literalCapRule(c, r)
 	one := func(name string) *State {
 		ps := c.pathsOf(name)
 		if len(ps) == 1 {
@@ -949,23 +951,29 @@ func ruleRepStruct(c *Ctx, r *R) {
 			r.undecided(fn, "-", "not found")
 			continue
 		}
-		p := ps[0]
-		good := false
-		for _, e := range p.Eff {
-			_ = e
-		}
-		// find the newStruct call among the effects / locals
-		var call *T
-		for _, v := range p.Vars {
-			walkT(v, func(x *T) {
-				if x.Op == "call" && x.Name == "newStruct" && len(x.Args) == 5 {
-					call = x
-				}
-			})
-		}
-		if call != nil {
+		// on every path (an instance built from no data is written to later all the same)
+		good := true
+		for _, p := range ps {
+			if p.Done == "panic" {
+				continue
+			}
+			// find the newStruct call among the effects / locals
+			var call *T
+			for _, v := range p.Vars {
+				walkT(v, func(x *T) {
+					if x.Op == "call" && x.Name == "newStruct" && len(x.Args) == 5 {
+						call = x
+					}
+				})
+			}
+			if call == nil {
+				good = false
+				continue
+			}
 			fields, methods := call.Args[3].String(), call.Args[4].String()
-			good = strings.HasPrefix(fields, "intMap.Copy(") && strings.Contains(fields, ".Fields") && strings.HasSuffix(methods, ".Methods") && !strings.Contains(methods, "Copy")
+			if !(strings.HasPrefix(fields, "intMap.Copy(") && strings.Contains(fields, ".Fields") && strings.HasSuffix(methods, ".Methods") && !strings.Contains(methods, "Copy")) {
+				good = false
+			}
 		}
 		r.check(good, fn+" ownership", c.Pos(c.Func(fn)), "Fields = type.Fields.Copy(), Methods = the type's own *intMap",
 			fn+" does not give the instance a copy of the type's field table and the type's own method table pointer: instances would share fields, or not see methods added later")
@@ -1473,15 +1481,34 @@ func ruleRepPrint(c *Ctx, r *R) {
 		if len(p.Ret) != 1 {
 			continue
 		}
-		cs := condStrings(p)
-		if p.Ret[0].String() == "false" {
+		// the tags this path is taken for: positive `base == Tag` conjuncts (alone or in an anyof)
+		var pos []string
+		for _, cd := range p.Conds {
+			s := cd.String()
+			if strings.HasPrefix(s, "!") {
+				continue
+			}
 			for _, tag := range []string{"TypeSlice", "TypeMap", "TypeStruct"} {
-				if strings.Contains(cs, tag) && !strings.HasPrefix(cs, "!") {
+				if strings.Contains(s, "== "+tag+")") || strings.HasSuffix(s, "== "+tag) {
+					pos = append(pos, tag)
+				}
+			}
+		}
+		if p.Ret[0].String() == "false" {
+			for _, tag := range pos {
+				if _, seen := falseTags[tag]; !seen {
 					falseTags[tag] = true
 				}
 			}
-		} else if p.Ret[0].String() == "true" {
-			defTrue = true
+		} else {
+			// a container tag answered with anything but the constant false (true, or a verdict
+			// borrowed from the element type) lets a nested container through
+			for _, tag := range pos {
+				falseTags[tag] = false
+			}
+			if p.Ret[0].String() == "true" && len(pos) == 0 {
+				defTrue = true
+			}
 		}
 	}
 	r.check(falseTags["TypeSlice"] && falseTags["TypeMap"] && falseTags["TypeStruct"] && defTrue, "isSafeStr", c.Pos(c.Func("Type.isSafeStr")), "false for slice, map and struct tags",
@@ -1824,4 +1851,114 @@ func stringOfRunesRule(c *Ctx, r *R) {
 	r.check(bytes, "string of bytes", c.Pos(clause), "string(<[]byte>)", "Value.convert no longer builds a string from the bytes of a byte slice")
 	r.check(runes, "string of runes", c.Pos(clause), "string(<[]rune>) encodes code points as UTF-8",
 		"Value.convert turns every slice into a string byte by byte: string([]rune{'h', 'é', '世'}) truncates each code point to its low byte instead of encoding it as UTF-8")
+}
+
+// newSliceConverts: NewSlice hands every element through assign(valueType) on every path that
+// returns a non-empty slice: a range over the data parameter whose first statement stores
+// `data[i] = v.assign(valueType)` unconditionally, and no return before it unless the data is
+// known to be empty.
+func newSliceConverts(c *Ctx, r *R) {
+	fd := c.Func("NewSlice")
+	if fd == nil || fd.Type.Params.NumFields() < 2 {
+		r.undecided("NewSlice converts", "-", "NewSlice not found")
+		return
+	}
+	var loop *ast.RangeStmt
+	for _, st := range fd.Body.List {
+		rs, ok := st.(*ast.RangeStmt)
+		if !ok || loop != nil {
+			continue
+		}
+		if id, ok := unparen(rs.X).(*ast.Ident); !ok || c.Obj(id) == nil || c.Obj(id).Name() != "data" {
+			continue
+		}
+		if len(rs.Body.List) == 0 {
+			continue
+		}
+		as, ok := rs.Body.List[0].(*ast.AssignStmt)
+		if !ok || len(as.Lhs) != 1 || len(as.Rhs) != 1 {
+			continue
+		}
+		k, _ := rs.Key.(*ast.Ident)
+		v, _ := rs.Value.(*ast.Ident)
+		if k == nil || v == nil {
+			continue
+		}
+		if nosp(c.Src(as.Lhs[0])) == "data["+k.Name+"]" && nosp(c.Src(as.Rhs[0])) == v.Name+".assign(valueType)" {
+			loop = rs
+		}
+	}
+	if !r.check(loop != nil, "NewSlice converts", c.Pos(fd), "every element is stored back through assign(valueType)", "NewSlice no longer converts every element to the element type: untyped constants in a literal, a make, a variadic pack or a host slice keep the untyped tag") {
+		return
+	}
+	// nothing returns before the loop except on empty data
+	early := ""
+	ast.Inspect(fd.Body, func(n ast.Node) bool {
+		rs, ok := n.(*ast.ReturnStmt)
+		if !ok || rs.Pos() > loop.Pos() {
+			return true
+		}
+		empty := false
+		for p := c.Parent(rs); p != nil && p != ast.Node(fd.Body); p = c.Parent(p) {
+			if ifs, ok := p.(*ast.IfStmt); ok {
+				cs := nosp(c.Src(ifs.Cond))
+				if cs == "len(data)==0" || cs == "data==nil" {
+					empty = true
+				}
+			}
+		}
+		if !empty {
+			early = c.Pos(rs)
+		}
+		return true
+	})
+	r.check(early == "", "NewSlice converts all", c.Pos(fd), "no return ahead of the conversion loop for non-empty data",
+		"NewSlice returns at "+early+" before converting the elements (a fast path that looks at some of them only): in []float64{x, 1, 2} the constants stay untyped and s[1]/s[2] is an integer division")
+}
+
+// literalCapRule: a slice literal has capacity == length (append to it must reallocate, so two
+// appends to the same literal do not share storage): the NEWSLICE handler allocates the data
+// with make([]Value, n) — not by appending to nil, which rounds the capacity up to a size class.
+func literalCapRule(c *Ctx, r *R) {
+	sw, err := c.execSwitch()
+	if err != nil {
+		r.undecided("NEWSLICE capacity", "-", err.Error())
+		return
+	}
+	sc := sw.ByLabel["codeNewSlice"]
+	if sc == nil {
+		r.undecided("NEWSLICE capacity", "-", "no handler")
+		return
+	}
+	found, exact := false, false
+	ast.Inspect(sc.Clause, func(n ast.Node) bool {
+		call, ok := n.(*ast.CallExpr)
+		if !ok || (c.CalleeName(call) != "NewSlice" && c.CalleeName(call) != "newSlice") || len(call.Args) != 2 {
+			return true
+		}
+		found = true
+		id, ok := unparen(call.Args[1]).(*ast.Ident)
+		if !ok {
+			return true
+		}
+		def := c.singleDef(id)
+		if def == nil {
+			return true
+		}
+		if mk, ok := unparen(def).(*ast.CallExpr); ok && c.CalleeName(mk) == "builtin.make" {
+			if len(mk.Args) == 2 || len(mk.Args) == 3 && nosp(c.Src(mk.Args[1])) == nosp(c.Src(mk.Args[2])) {
+				exact = true
+			}
+		}
+		if se, ok := unparen(def).(*ast.SliceExpr); ok && se.Slice3 && se.Max != nil && se.High != nil && nosp(c.Src(se.Max)) == nosp(c.Src(se.High)) {
+			exact = true
+		}
+		return true
+	})
+	if !found {
+		r.undecided("NEWSLICE capacity", c.Pos(sc.Clause), "no slice construction in the handler")
+		return
+	}
+	r.check(exact, "NEWSLICE capacity", c.Pos(sc.Clause), "the literal's data is allocated with capacity == length",
+		"the NEWSLICE handler builds the literal's data with spare capacity (append to nil rounds up to an allocation size class): for an 18-element literal a, b := append(a, 100); c := append(a, 200) write the same slot — b[18] is 200 and b[0] = -1 changes a[0]")
 }
